@@ -3,6 +3,7 @@ from ..rules import hyp_rules as H
 from ..rules import cache_rules as CA
 from ..rules import shape_rules as S
 from ..rules import sibling_rules as SI
+from ..rules import proj_rules as PR
 from ..rules.common import u1
 
 ENTRIES = [(H.HYP, q) for q in (
@@ -18,6 +19,7 @@ def run(ctx):
     ctx.do(S.rule_sh2, only={"short_arc", "right_to_left", "arc_include", "circle_angles", "sphere_through", "circle_through", "sphere_inversion", "kleinian_to_poincare", "poincare_to_halfspace", "Segment._compute_aux_data"})
     ctx.do(S.rule_ax1, [S.CORE, H.HYP], scope=ctx.scope(ENTRIES))
     ctx.do(SI.rule_x3)
+    ctx.do(PR.rule_s2)
     ctx.do(CA.rule_c2, "ProjectiveObject", scope=ctx.scope(ENTRIES))
     ctx.do(S.rule_sh5, only=S.SH5_C14)
     ctx.do(SI.rule_mean1, [SI.HYP], scope=ctx.scope(ENTRIES))
